@@ -22,8 +22,9 @@ Correspondence.  The real functions run in this process:
 
 Oracle (no model): the named structure computed independently from coordinates (mixed radix, first dimension
 least significant) / block numbers; vertex count = product / sum; edge count closed form; torus with all
-dimensions >= 3 is 2k-regular; gnm has exactly m edges; gnp: pair number k of `combinations(range(n), 2)` is an
-edge iff recorded draw k is < p; refusals only where documented or known (torus with a dimension 1).
+dimensions >= 3 is 2k-regular; gnm has exactly m edges; gnp: N vertices, a simple graph, complete for p = 1, empty for
+p = 0 (which pair is decided by which draw is a fact about networkx's algorithm: compared by the correspondence,
+proved about the model, not demanded by the oracle); refusals only where documented or known (torus with a dimension 1).
 """
 import itertools
 import random as pyrandom          # the module-level generator belongs to the code under test
@@ -459,17 +460,11 @@ def build_gnp(info):
             return {"defect": "gnp:object", "what": bad or "vertex count"}
         pairs = list(itertools.combinations(range(1, n + 1), 2))
         es = set(res.edges())
-        if p >= 1:
-            want = set(pairs)
-        elif p <= 0:
-            want = set()
-        else:
-            units = state["units"]
-            if len(units) != len(pairs):
-                return {"defect": "gnp:number-of-draws", "got": len(units), "want": len(pairs)}
-            want = {e for e, x in zip(pairs, units) if x < p}
-        if es != want:
-            return {"defect": "gnp:pair-not-decided-by-its-draw", "n": n, "p": ptok}
+        # the promise of gnp that does not depend on HOW networkx samples: the extreme probabilities
+        if p >= 1 and es != set(pairs):
+            return {"defect": "gnp:p=1-not-complete", "n": n, "p": ptok}
+        if p <= 0 and es:
+            return {"defect": "gnp:p=0-not-empty", "n": n, "p": ptok}
         return None
     case.impl, case.oracle = impl, oracle
     case.req = req("nx_gnp", n, pn, pd, [0])
